@@ -434,6 +434,31 @@ func repeatedFileScripts() []*Script {
 	return out
 }
 
+// commentedScript: several hundred short statements, every one followed by a
+// comment on the same line (no line ends in the semicolon itself), 70 to 200 KB
+// in all.
+func commentedScript(rng *rand.Rand) *Script {
+	s := &Script{}
+	n := 1500 + rng.Intn(2500)
+	for i := 0; i < n; i++ {
+		var st string
+		switch rng.Intn(6) {
+		case 0:
+			st = fmt.Sprintf("let v%d = %d", rng.Intn(4), i)
+		case 1:
+			st = invalid[rng.Intn(len(invalid))]
+			if strings.Contains(st, "\n") || strings.Contains(st, "unterminated") {
+				st = "T | bogus"
+			}
+		default:
+			st = fmt.Sprintf("T%d | where a == %d | take %d", i%5, i, 1+i%9)
+		}
+		s.Stmts = append(s.Stmts, st)
+		s.Seps = append(s.Seps, []string{"; // done\n", ";// x ; y\n", " ; // c\n", ";\t// t\n"}[rng.Intn(4)])
+	}
+	return s
+}
+
 func genScript(rng *rand.Rand) *Script {
 	switch rng.Intn(8) {
 	case 0, 1:
@@ -585,6 +610,9 @@ func run(c *mon.Custom) {
 	nRandom := len(scripts)
 	scripts = append(scripts, directedScripts()...)
 	scripts = append(scripts, repeatedFileScripts()...)
+	for i := 0; i < 2; i++ {
+		scripts = append(scripts, commentedScript(rng))
+	}
 	// model expectations, in child processes, batches of 50
 	expects := make([]*Expect, len(scripts))
 	var wg sync.WaitGroup
